@@ -17,7 +17,7 @@ const MIME: [(&str, &str); 16] = [
     ("vcard", "text/vcard"), ("jpeg", "image/jpeg"), ("gif", "image/gif"), ("png", "image/png"), ("svg", "image/svg+xml"), ("woff", "font/woff"), ("woff2", "font/woff2"),
     ("json", "application/json"), ("pdf", "application/pdf"),
 ];
-const STEMS: [&str; 14] = ["index", "app", "main", "a", "ab", "abc", "A", "x.y", "a-b", "a_b", "v1", "data2", "README", "app.min"];
+const STEMS: [&str; 20] = ["index", "app", "main", "a", "ab", "abc", "A", "x.y", "a-b", "a_b", "v1", "data2", "README", "app.min", "guide.txt", "page.js", "data.json", "x.html", "doc.css", "index.html"];
 const DIRS: [&str; 8] = ["assets", "css", "js", "img", "a", "docs", "v1", "sub.dir"];
 
 #[derive(Clone, Debug)]
